@@ -408,6 +408,12 @@ package leveldb
 //@   props C04 C11
 //@   at before call (*sessionRecord).addTableFile#1
 //@     assert [C04:finished-before-recorded] err == nil && t != nil
+// (C11: iterators of the transaction hold a reference on its buffer; the buffer is wiped in place only when the
+// transaction is its sole holder, otherwise a new one is taken and the old one is left to its readers)
+//@   at before call (*DB).Reset#*
+//@     assert [C11:buffer-wiped-in-place-only-when-nobody-else-holds-it] tr.mem.ref == 1
+//@   at before call (*sessionRecord).addTableFile#1
+//@     assert [C04,C11:spilled-table-is-a-level-0-table-of-the-transaction] arg0 == 0 && arg1 == t
 
 // O3: CURRENT is switched only after the new manifest is flushed and synced; the old manifest is removed only
 // after CURRENT was switched; if CURRENT was not switched nothing of the session state changed.
@@ -496,16 +502,16 @@ package leveldb
 // numbers the writer gave them), the group is not older than what was already replayed, and exactly as many records
 // are entered as the header announces.
 //@ func decodeBatchToMem$1
-//@   props C04
+//@   props C04 C01
 //@   safety off
 //@   at before call makeInternalKey#1
-//@     assert [C04:replayed-record-i-gets-the-group-sequence-plus-i] arg2 == seq + i && arg3 == index.keyType
-//@   ensures [C04:no-more-records-than-the-header-announces] result == nil ==> i < batchLen
+//@     assert [C01,C04:replayed-record-i-gets-the-group-sequence-plus-i] arg2 == seq + i && arg3 == index.keyType
+//@   ensures [C01,C04:no-more-records-than-the-header-announces] result == nil ==> i < batchLen
 //@ func decodeBatchToMem
-//@   props C04
+//@   props C04 C01
 //@   safety off
-//@   ensures [C04:replayed-group-is-not-older-than-expected] err == nil ==> seq >= expectSeq
-//@   guarantees [C04:replayed-count-is-the-header-count] err == nil ==> decodedLen == batchLen
+//@   ensures [C01,C04:replayed-group-is-not-older-than-expected] err == nil ==> seq >= expectSeq
+//@   guarantees [C01,C04:replayed-count-is-the-header-count] err == nil ==> decodedLen == batchLen
 
 // O8: a transaction may record its sequence number in the manifest only when no frozen memdb is waiting to be
 // flushed (its journal records would be older than the recorded number and recovery would drop them).
@@ -737,7 +743,7 @@ package leveldb
 //@   ensures recHas(p.hasRec, recSeqNum) && p.seqNum == num && recHas(p.hasRec, recJournalNum) == old(recHas(p.hasRec, recJournalNum)) && p.hasRec == (old(p.hasRec) | (1 << recSeqNum))
 //@   modifies p.hasRec, p.seqNum
 //@ func (*DB).recoverJournal
-//@   props C04 C07
+//@   props C04 C07 C08
 //@   at call (*session).markFileNum#1
 //@     assert [C04:highest-replayed-journal-number-is-retired] fds[len(fds)-1].Num < db.s.stNextFileNum
 //@   at before call (*session).commit#1
@@ -745,9 +751,9 @@ package leveldb
 //@   at before call (*session).commit#2
 //@     assert [C04:recovery-commit-carries-numbers] recHas(rec.hasRec, recJournalNum) && recHas(rec.hasRec, recSeqNum) && rec.journalNum == db.journalFd.Num && rec.seqNum == db.seq
 //@   at before call storage.Storage.Remove#1
-//@     assert [C04,C07:journal-removed-only-after-its-commit] lastok("(*session).commit") > last("decodeBatchToMem")
+//@     assert [C04,C07,C08:journal-removed-only-after-its-commit] lastok("(*session).commit") > last("decodeBatchToMem")
 //@   at before call storage.Storage.Remove#2
-//@     assert [C04,C07:journal-removed-only-after-its-commit] lastok("(*session).commit") > last("decodeBatchToMem")
+//@     assert [C04,C07,C08:journal-removed-only-after-its-commit] lastok("(*session).commit") > last("decodeBatchToMem")
 
 // ---------------------------------------------------------------------------
 // C06: the recorded smallest / largest keys of a table are its first and last appended keys.
